@@ -395,6 +395,12 @@ class Interp:
             v = External("typing-only." + name)
         else:
             m2, value_node, idx, st = payload
+            if name in m2.toplevel_touched:
+                v = self.exec_toplevel_for(m2, name, st)
+                gc[key] = v
+                if isinstance(v, (dict, list, set, bytearray, HashObj)):
+                    self.world.__dict__.setdefault("shared_objs", {})[id(v)] = (m2.name, name, v)
+                return v
             gc[key] = _INPROGRESS
             saved = (self.stack, self.oracle)
             try:
@@ -416,6 +422,37 @@ class Interp:
         if kind not in ("func", "class", "module", "external", "typing") and isinstance(v, (dict, list, set, bytearray, HashObj)):
             self.world.__dict__.setdefault("shared_objs", {})[id(v)] = (m2.name, name, v)
         return v
+
+    def exec_toplevel_for(self, m2, name, defining):
+        """value of a module-level name that module-level statements keep modifying after its definition (a table filled by
+        a loop): the defining assignment and those statements are executed in source order, concretely — a symbolic decision
+        or anything outside the fragment leaves it undecided"""
+        key = (m2.name, name, self.cache_key)
+        gc = self.world.global_cache
+        gc[key] = _INPROGRESS
+        saved = (self.stack, self.oracle)
+        try:
+            self.stack = []
+            ntrace = len(self.oracle.trace)
+            fr = Frame(None, m2, {})
+            self.stack.append(fr)
+            todo = [st for st in m2.tree.body if st is defining or st in m2.toplevel_touching.get(name, ())]
+            if defining not in todo:
+                raise AnalysisError(f"{m2.relpath}: `{name}` is modified at module level but its definition was not found")
+            try:
+                for st in todo:
+                    self.exec_stmt(st, fr)
+            except (_Return, _Break, _Continue, Raised) as ex:
+                raise AnalysisError(f"{m2.relpath}: module-level code for `{name}` does not run to completion ({type(ex).__name__})")
+            if len(self.oracle.trace) != ntrace:
+                raise AnalysisError(f"module-level value {m2.name}.{name} depends on a symbolic decision")
+            if name not in fr.env:
+                raise AnalysisError(f"{m2.relpath}: `{name}` not bound by its module-level statements")
+            return fr.env[name]
+        finally:
+            self.stack = saved[0]
+            if gc.get(key) is _INPROGRESS:
+                del gc[key]
 
     def external_value(self, ext: External):
         q = ext.qual
@@ -634,6 +671,20 @@ class Interp:
             r = h(self, cls, list(args), dict(kwargs))
             if r is not NotImplemented:
                 return r
+        if len(args) == 1 and not kwargs:
+            # FQ2(x.coeffs) for an opaque field-valued term x: the element itself (a copy with equal coefficients)
+            a0 = args[0]
+            src = None
+            if isinstance(a0, Term) and a0.op == "attr" and a0.args[1] == "coeffs" and isinstance(a0.args[0], Term):
+                src = a0.args[0]
+            elif isinstance(a0, (tuple, list)) and a0 and all(isinstance(c, Term) and c.op == "coeff" and c.args[1] == i and
+                                                             c.args[0] is a0[0].args[0] for i, c in enumerate(a0)):
+                src = a0[0].args[0]
+            if src is not None and getattr(src, "sort", None) in ("field", "any"):
+                from .fieldmodel import field_kind
+                k = field_kind(cls, self.repo)
+                if k is not None and k[0] == "FQP":
+                    return src
         inst = Instance(cls)
         init = self.find_method(cls, "__init__")
         if init is not None:
@@ -694,11 +745,18 @@ class Interp:
                     return _BuiltinMethod(self, "object.__new__", obj)      # allocation without __init__
                 if self.facts.get(Term("dict_has", (f"classdict:{obj.qualname}", name), "bool")) is True:
                     # attribute created at run time by an earlier call (state): an unknown mutable object
-                    d = {}
-                    self.shared_name(d)
-                    return d
+                    return self.class_state_object(obj, name)
                 raise AnalysisError(f"{self.where(node)}: class {obj.qualname} has no attribute {name}")
             return self.bind(m, None, obj)
+        if isinstance(obj, _ClassDict) and name == "get":
+            def _get(key, default=None, _cd=obj):
+                if is_sym(key) or not isinstance(key, str):
+                    raise AnalysisError(f"{self.where(node)}: cls.__dict__.get with a computed name")
+                has = self.contains(_cd, key, node)
+                if not self.truth(has, node):
+                    return default
+                return self.getattr(_cd.cls, key, node)
+            return _get
         if isinstance(obj, SuperProxy):
             recv = obj.recv
             cls = recv if isinstance(recv, ClassInfo) else recv.cls
@@ -967,13 +1025,24 @@ class Interp:
         if so is None or so[2] is not obj:
             return "plain"
         mod, name, _ = so
-        writers = memo.written_shared_names(self.repo).get((mod, name))
+        fr = next((f for f in reversed(self.stack) if f.func is not None), None)
+        if id(obj) in self.world.__dict__.get("class_state_objs", {}):
+            # run-time class state: the reader knows it under a local name
+            if fr is None:
+                return "fork"
+            local = [k for k, v in fr.env.items() if v is obj]
+            if not local:
+                return "fork"
+            writers = [(fr.func.qualname, fr.func.node.lineno, "")]
+            lname = local[0]
+        else:
+            writers = memo.written_shared_names(self.repo).get((mod, name))
+            lname = name
         if not writers:
             return "plain"
-        fr = next((f for f in reversed(self.stack) if f.func is not None), None)
         if fr is None:
             return "plain"
-        kind, detail = memo.classify(fr.func.node, name, {n: g.node for n, g in fr.func.module.functions.items()})
+        kind, detail = memo.classify(fr.func.node, lname, {n: g.node for n, g in fr.func.module.functions.items()})
         if node is None:
             node = memo.first_read(fr.func.node, name)
         where = self.where(node)
@@ -984,6 +1053,19 @@ class Interp:
         if kind == "complete":
             return "miss"
         return "fork"
+
+    def class_state_object(self, cls, name):
+        """the mutable object an earlier call stored on a class (setattr / cls.__dict__): contents unknown, one object per
+        (class, attribute) and walk; keyed reads of it go through the memo classifier under the local name it is bound to"""
+        reg = self.world.__dict__.setdefault("class_state", {})
+        key = (cls.qualname, name, id(self))
+        if key not in reg:
+            d = {}
+            reg[key] = d
+            self.shared_name(d)
+            self.world.__dict__.setdefault("shared_objs", {})[id(d)] = (cls.module.name, f"{cls.name}.{name}", d)
+            self.world.__dict__.setdefault("class_state_objs", {})[id(d)] = d
+        return reg[key]
 
     def shared_name(self, obj):
         reg = self.world.__dict__.setdefault("shared_names", {})
@@ -1218,7 +1300,12 @@ class Interp:
         return out
 
     def e_Tuple(self, e, fr):
-        return tuple(self._display(e, fr))
+        out = tuple(self._display(e, fr))
+        if len(out) == 3 and all(isinstance(x, Term) and x.op == "item" and x.args[1] == i for i, x in enumerate(out)):
+            base = out[0].args[0]
+            if all(x.args[0] is base for x in out) and isinstance(base, Term) and base.sort == "point":
+                return base              # (P[0], P[1], P[2]) of an opaque projective point is that point (an equal tuple)
+        return out
 
     def e_List(self, e, fr):
         return self._display(e, fr)
@@ -1309,6 +1396,10 @@ class Interp:
         except AnalysisError:
             raise
         except TypeError as ex:
+            plain = (int, float, str, bytes, bytearray, bool, type(None), tuple, list)
+            if isinstance(a, plain) and isinstance(b, plain) and not _has_abstract(a) and not _has_abstract(b):
+                # two concrete Python values: the TypeError is the program's own
+                self.raise_exc("TypeError", str(ex), node)
             raise AnalysisError(f"{self.where(node)}: {op} on {show(a)} and {show(b)}: {ex}")
 
     def term_binop(self, op, a, b, node):
@@ -1333,6 +1424,13 @@ class Interp:
         if sa in ("int", "bool", "any") and sb in ("int", "bool", "any"):
             if op == "truediv":
                 return Term("truediv", (a, b), "float")
+            if op == "and" and sa == "int" and sb == "int":
+                # x & (2^k − 1) = x mod 2^k for every Python int (negative ones too): one normal form for both spellings
+                for x_, m_ in ((a, b), (b, a)):
+                    if isinstance(m_, int) and not isinstance(m_, bool) and m_ > 0 and (m_ & (m_ + 1)) == 0 and isinstance(x_, Term):
+                        return self.term_binop("mod", x_, m_ + 1, node)
+            if op == "rshift" and sa == "int" and isinstance(b, int) and not isinstance(b, bool) and 0 <= b < 4096 and isinstance(a, Term):
+                return self.term_binop("floordiv", a, 1 << b, node)      # x >> k = x // 2^k for every int
             if op == "mod" and isinstance(a, Term) and isinstance(b, int) and not isinstance(b, bool) and b > 0 \
                     and (sa == "int" or self.facts.get(Term("isinstance", (a, "int"), "bool")) is True):
                 # x % m is x when the path has established 0 <= x < m
@@ -1392,6 +1490,19 @@ class Interp:
                 # the exact type of a symbolic value (an int may be a bool or a subclass …) is not known: both outcomes
                 ty, other = (a, b) if isinstance(a, Term) and a.op == "type" else (b, a)
                 r = Term("type_is", (ty.args[0], getattr(other, "qual", None) or getattr(other, "qualname", None) or repr(other)), "bool")
+            elif a is not b and not any(isinstance(x, (bool, ClassInfo)) or x is None for x in (a, b)) and \
+                    any(is_sym(x) or isinstance(x, AbstractValue) or (isinstance(x, (tuple, list)) and _has_abstract(x)) for x in (a, b)):
+                fnlike = lambda x: isinstance(x, (HashFn, External, FuncRef, IdentityFn)) or type(x).__name__ in ("HashFn", "IdentityFn")
+                sym, other = (a, b) if (is_sym(a) and isinstance(a, Term)) else (b, a)
+                if isinstance(sym, Term) and fnlike(other):
+                    # a symbolic function-valued parameter (`hash_function is sha256`): either outcome is possible; the branch
+                    # taken for the particular function is walked with the parameter still generic (it stands for that function too)
+                    r = Term("same_object", (sym, repr(other)), "bool")
+                    return t_not(r) if t is ast.IsNot else r
+                # a generic input compared by identity with one particular object (`pt is G1`): the input may be that very object.
+                # The branch taken for it cannot be walked on a generic value — undecided, never "not the same object"
+                raise AnalysisError(f"{self.where(node)}: identity test of a symbolic value against an object "
+                                    f"({show(a)[:40]} is {show(b)[:40]}): a specialisation on one object is outside the fragment")
             else:
                 r = a is b
             if t is ast.IsNot:
